@@ -17,6 +17,8 @@ var sendWorkers = []string{"transports.(*polling).send", "transports.(*websocket
 
 func init() {
 	register("C01", func(c *core.Ctx, tier string) {
+		frameTransportEffects(c, "C01.20")
+		pollingEffects(c, "C01.19")
 		accessorAgreement(c, "C01.17")
 		constructorChain(c, "C01.18")
 		c01BufferWriters(c)
